@@ -390,15 +390,6 @@ func checkFastCodec(c FCCase, cv *cov) (v *evid.Violation) {
 					}
 				}
 			}
-			if n2, err := z2.FastRead(full); err != nil || n2 != len(img) {
-				v = evid.Failf("%s.FastRead after failed reads of truncated images on the same receiver returned (%d,%v)", name, n2, err)
-				return
-			}
-			got2 := readBack(c.Kind, z2)
-			if d := eqModel(c.Kind, &got2, &m); d != "" {
-				v = evid.Failf("%s.FastRead after failed reads of truncated images on the same receiver does not reproduce the value: %s", name, d)
-				return
-			}
 			// after those rejected reads, ANOTHER message (other strings, other map keys) read into a fresh
 			// receiver must come out as exactly that message (nothing of the rejected ones may be left anywhere)
 			if c.Kind != 2 {
@@ -416,6 +407,15 @@ func checkFastCodec(c FCCase, cv *cov) (v *evid.Violation) {
 					v = evid.Failf("%s: after reads of truncated images were rejected (some of them inside the Extra map), another message read into a fresh receiver does not come out as written: %s", name, d)
 					return
 				}
+			}
+			if n2, err := z2.FastRead(full); err != nil || n2 != len(img) {
+				v = evid.Failf("%s.FastRead after failed reads of truncated images on the same receiver returned (%d,%v)", name, n2, err)
+				return
+			}
+			got2 := readBack(c.Kind, z2)
+			if d := eqModel(c.Kind, &got2, &m); d != "" {
+				v = evid.Failf("%s.FastRead after failed reads of truncated images on the same receiver does not reproduce the value: %s", name, d)
+				return
 			}
 			// the result just obtained (its Extra map) is now held by the caller; further failing reads into
 			// the same receiver must not reach into it
